@@ -1,19 +1,21 @@
-"""XSOL — the [Solution] part of result files (.res / .anh / .ans): the hand-off from the solvers to the
+"""XSOL — extension of C14 (run by ./check C14 through props/ext.py; ./check XSOL runs it alone): the [Solution] part of result files (.res / .anh / .ans): the hand-off from the solvers to the
 post-processors (last clause of C14: "every file written by the program is accepted by its own mesher,
 solvers and post-processors with the same meaning").
 
 Model:    coq/theories/SolFile.v (sections of count line + record lines, token level, unit scaling as a function
           on the numeric fields), gen/SolSchemas.v REGENERATED on every run by tools/translate_solution.py from the
           six writer/reader functions (+ the solvers' own previous-solution readers) of the snapshot.
-Theorems: Properties_XSOL.v (generic round trip for all compatible schemas, soundness of the checker, the
+Theorems: Properties_C14_solution.v (generic round trip for all compatible schemas, soundness of the checker, the
           regenerated pairs compatible except the committed defect list SolDefects.v, circuit-line variants,
-          air-gap lines, unit tables, coordinates come back; refutations for the defective modes).
+          air-gap block, unit tables, coordinates come back; incremental and previous-solution hand-offs; one refutation for
+          the unreachable static-incremental writer branch).
 Tie:      generated problems of the three physics are meshed by the real fmesher and solved by the real solvers;
           the written file is
           (i)   parsed by an independent reader written from the file format (FORMAT below; numbers as tokens:
                 every double token must be the %.17g text of a finite double, every int token a plain integer);
           (ii)  compared, token text by token text, with the solver's in-memory data dumped by h_esolver /
-                h_hsolver / h_fsolver (axisymmetric, air-gap and previous-solution magnetics: h_solread S),
+                h_hsolver / h_fsolver (planar time-harmonic magnetics; everything else in magnetics — static problems, whose
+                element lines carry Jprev, axisymmetric, air-gap and previous-solution problems — by h_solread S),
                 under the regenerated WRITER schema (field order, meaning, division by the unit factor);
           (iii) compared with what the real post-processor holds after OpenDocument (h_solread e|h|m) under the
                 regenerated READER schema, bit for bit;
@@ -29,21 +31,23 @@ from props import c03, c04, c05, c05_gen, c17_gen
 
 LEVEL = "proof"
 COQ_MODULES = ["SolFile", "gen/SolSchemas"]
+EXTRA_PROPERTY_FILES = ["C14_solution"]          # for the stand-alone run; c14.py lists the same file
 ASSUMPTIONS = [
     "token level: a line is the list of its numbers; %.17g printing and the lexing of a number by sscanf / strtod / operator>> are "
     "not modelled (checked at run time: every double token is the shortest-17-digit text of a finite double and is compared as text)",
     "the schemas are extracted by pattern matching over the regular fprintf / sscanf / operator>> code of the named functions "
     "(translator trusted; an unrecognised statement that touches the file aborts the check); canonical field names (the 'meaning') "
     "come from the table CANON of tools/translate_solution.py, which is hand-written and trusted",
-    "the copy of the problem file in front of the [Solution] tag is C14's subject (Schema.v), not modelled here; the air-gap-element "
-    "block is modelled line-wise only (its name line, the nesting of quadrature-node lines and their count are compared at run time "
-    "on the repository's two air-gap problems but have no theorem)",
+    "the copy of the problem file in front of the [Solution] tag is C14's subject (Schema.v), not modelled here; air-gap elements are "
+    "never drawn by the generators: the air-gap block is exercised on the repository's two air-gap problems only",
     "per-label circuit lines: the magnetics writers print no line for a circuit whose Case is outside {0,1} (static) / {0,1,2} "
     "(harmonic); Static2D / StaticAxisymmetric / Harmonic2D / HarmonicAxisymmetric only ever assign those values (checked at run "
     "time: the number of circuit lines equals NumBlockLabels)",
     "coordinates come back exactly over the reals; in binary64 x0*c/cf differs from x0 by rounding (measured, <= 4 ulp required)",
     "a reader that drops the result of sscanf and tests the stale variable is modelled as rejecting the line (the real behaviour is "
-    "undefined for a never-assigned variable); fused tokens are modelled as unreadable",
+    "undefined for a never-assigned variable); fused tokens are modelled as unreadable; an unchecked sscanf on a line that ends early "
+    "is modelled as accepting it with nothing arriving in the remaining variables (no regenerated pair is in any of these cases except "
+    "the static-incremental writer branch, which FSolver::runSolver makes unreachable)",
 ]
 
 T = {}
@@ -61,8 +65,8 @@ def regen(ctx):
 FORMAT = {
     "res": [("nodes", "dddi"), ("elements", "iiii"), ("conductors", "dd")],
     "anh": [("nodes", "dddi"), ("elements", "iiii"), ("conductors", "dd")],
-    "ans_static": [("nodes", "dddi"), ("elements", "iiii"), ("circuits", "id"), ("pbcs", "iii")],
-    "ans_static_incr": [("nodes", "dddid"), ("elements", "iiii"), ("circuits", "id"), ("pbcs", "iii")],
+    "ans_static": [("nodes", "dddi"), ("elements", "iiiiiiid"), ("circuits", "id"), ("pbcs", "iii")],
+    "ans_static_incr": [("nodes", "dddid"), ("elements", "iiiiiiid"), ("circuits", "id"), ("pbcs", "iii")],
     "ans_harmonic": [("nodes", "ddddi"), ("elements", "iiiiiii"), ("circuits", "idd"), ("pbcs", "iii")],
     "ans_harmonic_incr": [("nodes", "ddddid"), ("elements", "iiiiiiid"), ("circuits", "idd"), ("pbcs", "iii")],
 }
@@ -335,6 +339,8 @@ def check_writer_side(sol, mem, wname, unit):
 
 def r_conv(f, tok, unit):
     if f["ty"] == "int":
+        if not INT_RE.match(tok):
+            return None                              # %i / >> int stops inside the token: nothing meaningful arrives
         return int(tok)
     v = float(tok)
     if f["scale"][0] == "mul":
@@ -370,18 +376,49 @@ def check_reader_side(sol, rd, rname, unit, kind):
                     return "circuit line %d (tag %d): the file has %r, the post-processor holds %s = %r" % (k, tag, toks[1:], dest, got)
                 continue
             for j, f in enumerate(s["fields"]):
-                if f["name"] == "bmarker":
-                    continue                         # scanned into a local, not kept
+                if f["name"] not in rec:
+                    continue                         # scanned into a local (boundary / edge markers in fpproc), not kept
                 want = r_conv(f, toks[j], unit)
                 got = rec[f["name"]]
-                if not (same_float(float(got), float(want)) if f["ty"] == "dbl" else got == want):
+                if want is None or not (same_float(float(got), float(want)) if f["ty"] == "dbl" else got == want):
                     return ("section %s record %d field %s (%s): the file has %s, the post-processor holds %r" %
                             (name, k, f["name"], f["expr"], toks[j], got))
     return None
 
 
-def check_ages(sol, rd, sd, unit, harmonic):
-    """air-gap elements: file vs solver memory (h_solread S) vs fpproc, line kinds under the regenerated schemas"""
+def check_end_to_end(mem, rd, wname, rname, unit):
+    """(vi): what the post-processor holds == what the solver held, field by field BY MEANING (canonical name), whatever
+    the column: the solver's value, scaled and printed as the writer does, re-read and scaled as the reader does"""
+    w, r = T["writers"][wname], T["readers"][rname]
+    held = {"nodes": rd["nodes"], "elements": rd["elems"], "conductors": rd["conds"]}
+    wsec = {s["name"]: s for s in w["sections"]}
+    for s in r["sections"]:
+        if s["name"] not in held or s["name"] not in wsec:
+            continue
+        wf = {f["name"]: f for f in wsec[s["name"]]["fields"]}
+        m, h = mem[s["name"]], held[s["name"]]
+        if len(m) != len(h):
+            return "section %s: the solver held %d records, the post-processor holds %d" % (s["name"], len(m), len(h))
+        for k, (a, b) in enumerate(zip(m, h)):
+            for f in s["fields"]:
+                if f["name"] not in b or f["name"] not in wf or f["name"] not in a:
+                    continue
+                want = r_conv(f, tok_text(wf[f["name"]], a[f["name"]], unit), unit)
+                got = b[f["name"]]
+                if want is None or not (same_float(float(got), float(want)) if f["ty"] == "dbl" else got == want):
+                    return ("section %s record %d: the solver held %s = %r (arrives as %r), the post-processor holds %r"
+                            % (s["name"], k, f["name"], a[f["name"]], want, got))
+    return None
+
+
+AGE_DUMP = ["age.format", "age.innerangle", "age.outerangle", "age.ri", "age.ro", "age.arclength", "age.agc.re", "age.agc.im",
+            "age.arcelements", "age.innershift", "age.outershift"]
+QUAD_DUMP = ["quad.n0", "quad.w0", "quad.n1", "quad.w1", "quad.n2", "quad.w2", "quad.n3", "quad.w3"]
+
+
+def check_ages(ctx, tag, replay, sol, rd, sd, unit, harmonic):
+    """air-gap elements: file vs solver memory (h_solread S) vs fpproc, line kinds under the regenerated schemas;
+    the harness dumps name the values (AGE_DUMP / QUAD_DUMP), the schemas give the columns"""
     w = T["writers"]["fsolver_harmonic" if harmonic else "fsolver_static"]["ages"]
     r = T["readers"]["fpproc_static"]["ages"]
     if sd is not None:
@@ -390,31 +427,57 @@ def check_ages(sol, rd, sd, unit, harmonic):
         for k, (a, m) in enumerate(zip(sol["ages"], sd["ages"])):
             if m["name"].replace("|", "\n") != a["name"] + "\n":
                 return "air-gap element %d: name line %r, the solver held %r" % (k, a["name"], m["name"])
+            mp = dict(zip(AGE_DUMP, m["params"]))
             for j, f in enumerate(w["params"]):
-                if a["params"][j] != tok_text(f, m["params"][j], unit):
-                    return "air-gap element %d parameter %s: file %s, solver %r" % (k, f["name"], a["params"][j], m["params"][j])
+                if a["params"][j] != tok_text(f, mp[f["name"]], unit):
+                    return "air-gap element %d parameter %s: file %s, solver %r" % (k, f["name"], a["params"][j], mp[f["name"]])
             if len(a["quads"]) != len(m["quads"]):
                 return "air-gap element %d: %d quadrature lines, the solver held %d nodes" % (k, len(a["quads"]), len(m["quads"]))
             for q, (u, v) in enumerate(zip(a["quads"], m["quads"])):
+                mq = dict(zip(QUAD_DUMP, v))
                 for j, f in enumerate(w["quad"]):
-                    if u[j] != tok_text(f, v[j], unit):
-                        return "air-gap element %d quadrature node %d %s: file %s, solver %r" % (k, q, f["name"], u[j], v[j])
-    kept = [a for a in sol["ages"] if int(a["params"][8]) > 0]
+                    if u[j] != tok_text(f, mq[f["name"]], unit):
+                        return "air-gap element %d quadrature node %d %s: file %s, solver %r" % (k, q, f["name"], u[j], mq[f["name"]])
+    ia = [f["name"] for f in w["params"]].index("age.arcelements")
+    kept = [a for a in sol["ages"] if int(a["params"][ia]) > 0]
     if len(rd["ages"]) != len(kept):
         return "air-gap elements: %d in the file, the post-processor holds %d" % (len(kept), len(rd["ages"]))
     for k, (a, h) in enumerate(zip(kept, rd["ages"])):
         if h["name"] != a["name"].replace('"', ""):
             return "air-gap element %d: name %r, the post-processor holds %r" % (k, a["name"], h["name"])
+        hp = dict(zip(AGE_DUMP, h["params"]))
         for j, f in enumerate(r["params"]):
             want = r_conv(f, a["params"][j], unit)
-            if not (same_float(float(h["params"][j]), float(want))):
-                return "air-gap element %d parameter %s: file %s, post-processor %r" % (k, f["name"], a["params"][j], h["params"][j])
+            if want is None or not (same_float(float(hp[f["name"]]), float(want))):
+                return "air-gap element %d parameter %s: file %s, post-processor %r" % (k, f["name"], a["params"][j], hp[f["name"]])
         if len(h["quads"]) != len(a["quads"]):
             return "air-gap element %d: %d quadrature lines, the post-processor holds %d" % (k, len(a["quads"]), len(h["quads"]))
         for q, (u, v) in enumerate(zip(a["quads"], h["quads"])):
+            hq = dict(zip(QUAD_DUMP, v))
             for j, f in enumerate(r["quad"]):
-                if not same_float(float(v[j]), float(r_conv(f, u[j], unit))):
-                    return "air-gap element %d quadrature node %d %s: file %s, post-processor %r" % (k, q, f["name"], u[j], v[j])
+                want = r_conv(f, u[j], unit)
+                if want is None or not same_float(float(hq[f["name"]]), float(want)):
+                    return "air-gap element %d quadrature node %d %s: file %s, post-processor %r" % (k, q, f["name"], u[j], hq[f["name"]])
+    if sd is not None:
+        # by meaning: what fpproc holds == what the solver held under the same canonical name, whatever the column
+        wp = {f["name"]: f for f in w["params"]}
+        wq = {f["name"]: f for f in w["quad"]}
+        keptm = [m for m in sd["ages"] if dict(zip(AGE_DUMP, m["params"]))["age.arcelements"] > 0]
+        for k, (m, h) in enumerate(zip(keptm, rd["ages"])):
+            mp, hp = dict(zip(AGE_DUMP, m["params"])), dict(zip(AGE_DUMP, h["params"]))
+            rows = [(r["params"], wp, mp, hp, "parameter")]
+            for q, (u, v) in enumerate(zip(m["quads"], h["quads"])):
+                rows.append((r["quad"], wq, dict(zip(QUAD_DUMP, u)), dict(zip(QUAD_DUMP, v)), "quadrature node %d" % q))
+            for rf, wf, mm, hh, what in rows:
+                for f in rf:
+                    if f["name"] not in wf:
+                        fail_once(ctx, "%s: air-gap %s %s is read but never written" % (tag, what, f["name"]), "meaning:ages", **replay)
+                        return None
+                    want = r_conv(f, tok_text(wf[f["name"]], mm[f["name"]], unit), unit)
+                    if want is None or not same_float(float(hh[f["name"]]), float(want)):
+                        fail_once(ctx, "%s: a field does not arrive with the same meaning: air-gap element %d %s: the solver held %s = %r (arrives as %r), "
+                                  "the post-processor holds %r" % (tag, k, what, f["name"], mm[f["name"]], want, hh[f["name"]]), "meaning:ages", **replay)
+                        return None
     return None
 
 
@@ -454,7 +517,14 @@ def coordinate_drift(sol, pts):
 PP_LIBS = ("fsolver", "epproc", "hpproc", "fpproc", "femm")
 
 
-def sh_tool(ctx, tool, arg, cwd, timeout=300):
+def workdir(ctx):
+    """own sub-directory of the run's work directory (the check also runs as an extension of C14)"""
+    d = os.path.join(ctx.work, "sol")
+    os.makedirs(d, exist_ok=True)
+    return d
+
+
+def sh_tool(ctx, tool, arg, cwd, timeout=120):
     return vlib.sh([ctx.snap.tool(tool), arg], timeout=timeout, cwd=cwd)
 
 
@@ -473,7 +543,7 @@ class Case:
 def run_scalar(ctx, case, kind):
     """electrostatics ('fee') / heat flow ('feh'): returns dict or raises RuntimeError(message)"""
     ext = {"fee": "res", "feh": "anh"}[kind]
-    base = os.path.join(ctx.work, case.name)
+    base = os.path.join(workdir(ctx), case.name)
     f = base + "." + kind
     p = case.p
     prevnodes = None
@@ -496,7 +566,7 @@ def run_scalar(ctx, case, kind):
     hname, libs, tool = {"fee": ("h_esolver", ("esolver", "femm"), "esolver"), "feh": ("h_hsolver", ("hsolver", "femm"), "hsolver")}[kind]
     exe = vlib.build_harness(ctx.snap, hname, libs=libs)
     dump = base + ".dump"
-    rc, out, err = vlib.sh([exe, base, dump], timeout=300, cwd=ctx.work)
+    rc, out, err = vlib.sh([exe, base, dump], timeout=150, cwd=ctx.work)
     if not os.path.exists(dump):
         raise RuntimeError("%s crashed (rc=%d): %s" % (hname, rc, err[-200:]))
     d = (c03 if kind == "fee" else c04).parse_dump(dump)
@@ -521,7 +591,7 @@ def write_fem(p, f):
 
 def run_mag(ctx, case, file_path=None):
     """magnetics: planar problems through h_fsolver, everything else through h_solread S"""
-    base = os.path.join(ctx.work, case.name)
+    base = os.path.join(workdir(ctx), case.name)
     f = base + ".fem"
     if file_path:
         shutil.copy(file_path, f)
@@ -538,7 +608,9 @@ def run_mag(ctx, case, file_path=None):
     if rc != 0:
         raise RuntimeError("fmesher failed (rc=%d): %s" % (rc, (out + err)[-200:]))
     pts = read_node_file(base + ".node")
-    use_s = axi or prev or file_path is not None or case.kw.get("force_s")
+    # h_fsolver (planar only) does not dump meshele[i].Jprev, which WriteStatic2D prints since /repo 0723d07: static problems
+    # go through h_solread S as well; planar time-harmonic problems keep the existing harness
+    use_s = axi or prev or freq == 0 or file_path is not None or case.kw.get("force_s")
     dump = base + ".dump"
     if use_s:
         exe = vlib.build_harness(ctx.snap, "h_solread", libs=PP_LIBS)
@@ -571,8 +643,78 @@ def run_mag(ctx, case, file_path=None):
 HEADER = ("From Coq Require Import String List ZArith Floats. Import ListNotations. "
           "From XF Require Import Arith SolFile. From XF.gen Require Import SolSchemas. "
           "Local Open Scope string_scope.\n"
-          "Definition enc (t : @tok float) := match t with TI z => (0%Z, z, 0%float) | TD x => (1%Z, 0%Z, x) | TBad => (2%Z, 0%Z, 0%float) end.\n"
-          "Definition encl (l : list (list (@tok float))) := map (map enc) l.\n")
+          "Definition enc (t : @tok float) := match t with TI z => (0%Z, z, 0%float, \"\") | TD x => (1%Z, 0%Z, x, \"\") "
+          "| TBad => (2%Z, 0%Z, 0%float, \"\") | TS s => (3%Z, 0%Z, 0%float, s) end.\n"
+          "Definition encl (l : list (list (@tok float))) := map (map enc) l.\n"
+          "Definition enca (a : @age float) := (a_name a, map enc (a_params a), encl (a_quads a)).\n")
+
+
+def cqs(t):
+    return '"' + t.replace('"', '""') + '"'
+
+
+def coq_age_exprs(r, sol):
+    """the air-gap block: print_ages on the solver's elements, parse_ages on the file's lines"""
+    mode = "harmonic" if r["harmonic"] else "static"
+    w = T["writers"]["fsolver_" + mode]["ages"]
+    ags = []
+    for m in r["sd"]["ages"]:
+        mp = dict(zip(AGE_DUMP, m["params"]))
+        ps = "; ".join(coq_tok_mem(f, mp[f["name"]]) for f in w["params"])
+        qs = "; ".join("[%s]" % "; ".join(coq_tok_mem(f, dict(zip(QUAD_DUMP, q))[f["name"]]) for f in w["quad"]) for q in m["quads"])
+        ags.append("mkAge %s [%s] [%s]" % (cqs(m["name"].rstrip("|")), ps, qs))
+    e1 = "encl (print_ages FA %s w_fsolver_%s_age_params w_fsolver_%s_age_quad [%s])" % (coq_env(r["unit"]), mode, mode, "; ".join(ags))
+    lines = ["[TI (%d)%%Z]" % len(sol["ages"])]
+    for a in sol["ages"]:
+        lines.append("[TS %s]" % cqs(a["name"]))
+        lines.append("[%s]" % "; ".join(coq_tok_file(t) for t in a["params"]))
+        lines += ["[%s]" % "; ".join(coq_tok_file(t) for t in q) for q in a["quads"]]
+    e2 = ("match parse_ages FA %s r_fpproc_age_params r_fpproc_age_quad [%s] with Some (l, _) => (true, map enca l) | None => (false, []) end"
+          % (coq_env(r["unit"]), "; ".join(lines)))
+    return e1, e2
+
+
+def compare_model_ages(v1, v2, sol, rd):
+    flat = [[str(len(sol["ages"]))]]
+    for a in sol["ages"]:
+        flat += [[a["name"]], a["params"]] + a["quads"]
+    if len(v1) != len(flat):
+        return "print_ages gives %d lines, the file has %d" % (len(v1), len(flat))
+    for k, (ml, fl) in enumerate(zip(v1, flat)):
+        if len(ml) != len(fl):
+            return "air-gap line %d: the model prints %d tokens, the file has %d" % (k, len(ml), len(fl))
+        for (tag, z, x, st), t in zip(ml, fl):
+            good = (tag == 0 and INT_RE.match(t) and int(t) == int(z)) or (tag == 1 and vlib.ulp_diff(float(x), float(t)) == 0) or (tag == 3 and st == t)
+            if not good:
+                return "air-gap line %d: model token %r, file token %r" % (k, (tag, z, x, st), t)
+    ok, ags = v2
+    if not ok:
+        return "parse_ages rejects the air-gap block the post-processor accepted"
+    rsch = T["readers"]["fpproc_static"]["ages"]
+    ia = [f["name"] for f in rsch["params"]].index("age.arcelements")
+    kept = [a for a in ags if int(a[1][ia][1]) > 0]
+    if len(kept) != len(rd["ages"]):
+        return "parse_ages keeps %d elements, the post-processor holds %d" % (len(kept), len(rd["ages"]))
+    for k, (a, h) in enumerate(zip(kept, rd["ages"])):
+        if a[0] != h["name"]:
+            return "air-gap element %d: model name %r, post-processor %r" % (k, a[0], h["name"])
+        hp = dict(zip(AGE_DUMP, h["params"]))
+        for j, (tag, z, x, st) in enumerate(a[1]):
+            mv = int(z) if tag == 0 else float(x)
+            hv = hp[rsch["params"][j]["name"]]
+            if (tag == 0 and hv != mv) or (tag == 1 and vlib.ulp_diff(float(hv), mv) != 0) or tag > 1:
+                return "air-gap element %d parameter %d: model %r, post-processor %r" % (k, j, mv, hv)
+        if len(a[2]) != len(h["quads"]):
+            return "air-gap element %d: model reads %d quadrature nodes, post-processor %d" % (k, len(a[2]), len(h["quads"]))
+        for q, (ml, hl) in enumerate(zip(a[2], h["quads"])):
+            hq = dict(zip(QUAD_DUMP, hl))
+            for j, (tag, z, x, st) in enumerate(ml):
+                mv = int(z) if tag == 0 else float(x)
+                hv = hq[rsch["quad"][j]["name"]]
+                if (tag == 0 and hv != mv) or (tag == 1 and vlib.ulp_diff(float(hv), mv) != 0) or tag > 1:
+                    return "air-gap element %d node %d token %d: model %r, post-processor %r" % (k, q, j, mv, hv)
+    return None
+
 
 
 def coq_env(unit):
@@ -613,7 +755,7 @@ def compare_model_print(val, sol):
     for k, (ml, fl) in enumerate(zip(val, flat)):
         if len(ml) != len(fl):
             return "line %d: the model prints %d tokens, the file has %d" % (k, len(ml), len(fl))
-        for (tag, z, x), t in zip(ml, fl):
+        for (tag, z, x, _s), t in zip(ml, fl):
             if tag == 0:
                 if not INT_RE.match(t) or int(t) != int(z):
                     return "line %d: model token %d, file token %s" % (k, z, t)
@@ -639,7 +781,7 @@ def compare_model_parse(val, rd, rname):
             return "section %s: the model reads %d records, the post-processor holds %d" % (s["name"], len(recs), len(h))
         for k, (mrec, rec) in enumerate(zip(recs, h)):
             for j, f in enumerate(s["fields"]):
-                tag, z, x = mrec[j]
+                tag, z, x, _s = mrec[j]
                 mv = int(z) if tag == 0 else float(x)
                 if s["name"] == "circuits":
                     d = s["dests"]
@@ -648,22 +790,38 @@ def compare_model_parse(val, rd, rname):
                     else:
                         dest = d["tag0"] if int(mrec[0][1]) == 0 else d["other"]
                         got = rec[dest][j - 1]
-                elif f["name"] == "bmarker":
+                elif f["name"] not in rec:
                     continue
                 else:
                     got = rec[f["name"]]
-                if (tag == 0 and got != mv) or (tag == 1 and vlib.ulp_diff(float(got), mv) != 0) or tag == 2:
+                if (tag == 0 and got != mv) or (tag == 1 and vlib.ulp_diff(float(got), mv) != 0) or tag >= 2:
                     return "section %s record %d field %s: model %r, post-processor %r" % (s["name"], k, f["name"], mv, got)
     return None
 
 
 # ----------------------------------------------------------------------- generators ----
+def all_exterior_problem(rng, kind):
+    """regression (repaired in /repo 75a7fce): an axisymmetric problem whose ONLY block label lies in the exterior region —
+    epproc / hpproc used to index the element list with the number of exterior elements and crashed in OpenDocument"""
+    for attempt in range(60):
+        p = femgen.gen_scalar_problem(rng, kind, axi=True, size_nodes=20, box="cfix")
+        if len(p["labels"]) == 1 and (kind == "fee" or c04.well_posed(p)):
+            break
+    else:
+        return None
+    ys = [q["y"] for q in p["points"]]
+    p.update(extRo=3.0, extRi=2.0, extZo=min(ys) - 1.0, dosmartmesh=0, dt=0.0)
+    p["labels"][0]["external"] = 1
+    p["features"] = list(p["features"]) + ["external", "all-labels-exterior"]
+    return p
+
+
 def plan(ctx, rng):
     q = ctx.quick()
-    n_es, n_he, n_mp, n_ma = (8, 7, 10, 6) if q else (48, 42, 60, 36)
+    n_es, n_he, n_mp, n_ma = (8, 7, 10, 6) if q else (96, 84, 120, 72)
     cases = []
     for k in range(n_es):
-        p = c03.gen_problem(rng, True, k)
+        p = c03.gen_problem(rng, q, k)
         p["units"] = femgen.UNITS[k % 6]
         p["features"] = [ft for ft in p["features"] if ft not in femgen.UNITS] + [p["units"]]
         p["dosmartmesh"] = 0
@@ -671,12 +829,12 @@ def plan(ctx, rng):
     for k in range(n_he):
         fam = ["linear", "nonlinear", "transient", "linear"][k % 4]
         if fam == "transient":
-            prev, cur = c04.transient_pair(rng, True, k)
+            prev, cur = c04.transient_pair(rng, q, k)
             cur["units"] = prev["units"] = femgen.UNITS[k % 6]
             cur["dosmartmesh"] = prev["dosmartmesh"] = 0
             cases.append(Case("h%d" % k, "feh", cur, prev=prev))
         else:
-            p = c04.gen_problem(rng, True, fam, k)
+            p = c04.gen_problem(rng, q, fam, k)
             p["units"] = femgen.UNITS[k % 6]
             p["dosmartmesh"] = 0
             cases.append(Case("h%d" % k, "feh", p))
@@ -686,10 +844,10 @@ def plan(ctx, rng):
         force["dosmartmesh"] = 0
         if k % 5 == 3:
             force["pbc"] = True
-        p = c05_gen.gen_problem(rng, harmonic=(k % 2 == 1), size_nodes=rng.choice([20, 30, 45]), force=force)
+        p = c05_gen.gen_problem(rng, harmonic=(k % 2 == 1), size_nodes=rng.choice([20, 30, 45] if q else [30, 80, 200]), force=force)
         cases.append(Case("m%d" % k, "fem", p))
     for k in range(n_ma):
-        p = c17_gen.gen_mag_problem(rng, axi=True, size_nodes=rng.choice([40, 60]))
+        p = c17_gen.gen_mag_problem(rng, axi=True, size_nodes=rng.choice([40, 60] if q else [60, 120, 250]))
         p["units"] = femgen.UNITS[k % 6]
         p["dosmartmesh"] = 0
         if k % 3 == 2:
@@ -700,23 +858,31 @@ def plan(ctx, rng):
                 b["H_c"] = 0.0
         p["features"] = list(p.get("features", [])) + ["axisymmetric", "harmonic" if p.get("frequency") else "static"]
         cases.append(Case("a%d" % k, "fem", p))
+    for kind in ("fee", "feh"):
+        for k in range(1 if q else 4):
+            p = all_exterior_problem(rng, kind)
+            if p is not None:
+                cases.append(Case("x%s%d" % (kind[2], k), kind, p))
+    # every fourth problem file is written with CRLF line ends (as FEMM 4.2 does): the solver copies it in front of the solution
+    for k, c in enumerate(cases):
+        if k % 4 == 1:
+            c.p["eol"] = "\r\n"
+            c.p["features"] = list(c.p.get("features", [])) + ["crlf-header"]
+            if c.kw.get("prev") is not None:
+                c.kw["prev"]["eol"] = "\r\n"
     return cases
 
 
 AGE_FILES = ["femmcli/test/femmcli_antiperiodicBC_AGE_TorqueBenchmark.fem", "femmcli/test/femmcli_TorqueBenchmark.fem"]
 
 
-# ------------------------------------------------------------------- known defects ----
-# genuine defects of /repo that Properties_XSOL.v states as *_refuted and SolDefects.v commits; observing them at run time
-# is recorded in the evidence, not reported as a new violation (they are in the builder's report for the main loop)
-KNOWN = {
-    "previous-solution-loses-edge-markers":
-        "FSolver::LoadMeshElementsFromSolution scans 8 items from the 4-token element lines WriteStatic2D prints: after loading a "
-        "previous solution every element edge carries boundary property 0 (e[0..2] = 0) instead of the markers of the mesh",
-    "harmonic-incremental-rejected-by-fpproc":
-        "FPProc::OpenDocument (Frequency != 0, bIncremental): the result of sscanf is dropped and the never-assigned sscnt is tested; "
-        "the .ans file written by fsolver for an incremental-permeability problem is not loaded (or loaded by accident)",
-}
+def fail_once(ctx, what, signature, **kw):
+    """one failing input per signature; further occurrences are counted"""
+    for f in ctx.failing_inputs:
+        if f.get("signature") == signature:
+            f["occurrences"] = f.get("occurrences", 1) + 1
+            return
+    ctx.fail(what, signature=signature, **kw)
 
 
 def one_case(ctx, case, stats, dis, coqq):
@@ -724,7 +890,10 @@ def one_case(ctx, case, stats, dis, coqq):
     try:
         r = run_scalar(ctx, case, case.physics) if case.physics in ("fee", "feh") else run_mag(ctx, case, case.kw.get("file"))
     except RuntimeError as e:
-        ctx.fail("%s: %s" % (tag, e), problem=case.p, signature="pipeline")
+        # mesher / solver did not produce a result file: no file written, not this check's subject (C03 / C04 / C05 own the
+        # solvers); recorded, and reported only if it happens so often that the check would become vacuous
+        stats["pipeline_failures"].append("%s: %s" % (tag, str(e).replace("\n", " ")[:160]))
+        stats["pipeline_failed_problems"].append(case.p)
         return None
     stats["solved"] += 1
     stats["by_writer"][r["writer"]] = stats["by_writer"].get(r["writer"], 0) + 1
@@ -734,8 +903,8 @@ def one_case(ctx, case, stats, dis, coqq):
     try:
         sol = read_solution(r["path"], r["fmt"])
     except FormatError as e:
-        ctx.fail("%s: the solution part of the written file does not have the documented format: %s" % (tag, e),
-                 signature="format", solution_head=solution_head(r["path"]), **replay)
+        fail_once(ctx, "%s: the solution part of the written file does not have the documented format: %s" % (tag, e),
+                  "format:" + r["writer"], solution_head=solution_head(r["path"]), **replay)
         return None
     stats["tokens"] += sum(len(t) for _, recs in sol["sections"] for t in recs)
     msg = schema_shape_check(r["writer"], r["fmt"])
@@ -748,32 +917,38 @@ def one_case(ctx, case, stats, dis, coqq):
         dis.append(dict(what="%s: writer schema %s vs solver memory: %s" % (tag, r["writer"], msg), signature="writer:" + r["writer"], **replay))
         return None
     if r["fmt"].startswith("ans") and case.p and len(sol["sections"][2][1]) != len(case.p["labels"]):
-        ctx.fail("%s: %d circuit lines for %d block labels" % (tag, len(sol["sections"][2][1]), len(case.p["labels"])), signature="circuit-lines", **replay)
+        fail_once(ctx, "%s: %d circuit lines for %d block labels" % (tag, len(sol["sections"][2][1]), len(case.p["labels"])), "circuit-lines", **replay)
     # (v) coordinates
     worst, msg = coordinate_drift(sol, r["pts"]) if not r.get("prev") else (0, None)
     stats["max_coordinate_ulp"] = max(stats["max_coordinate_ulp"], worst)
     if msg:
-        ctx.fail("%s: %s" % (tag, msg), signature="coordinates", solution_head=solution_head(r["path"]), **replay)
+        fail_once(ctx, "%s: %s" % (tag, msg), "coordinates:" + r["writer"], solution_head=solution_head(r["path"]), **replay)
     # (iii) reader side
     rc, rd, log = run_reader(ctx, r["rkind"], r["path"])
     if rd["ok"] != 1 or not rd["done"]:
-        if r.get("incr") and r["harmonic"]:
-            stats["known"]["harmonic-incremental-rejected-by-fpproc"] = stats["known"].get("harmonic-incremental-rejected-by-fpproc", 0) + 1
-            return None
-        ctx.fail("%s: the post-processor does not open the file its solver wrote (rc=%d): %s" % (tag, rc, log[-200:]),
-                 signature="rejected", solution_head=solution_head(r["path"]), **replay)
+        fail_once(ctx, "%s: the post-processor does not open the file its solver wrote (rc=%d): %s" % (tag, rc, log[-200:]),
+                  "rejected:" + r["reader"], solution_head=solution_head(r["path"]), **replay)
         return None
     if rd["unit"] != r["unit"]:
-        ctx.fail("%s: the solver read length unit %d, the post-processor %d" % (tag, r["unit"], rd["unit"]), signature="unit", **replay)
+        fail_once(ctx, "%s: the solver read length unit %d, the post-processor %d" % (tag, r["unit"], rd["unit"]), "unit", **replay)
     msg = check_reader_side(sol, rd, r["reader"], r["unit"], r["rkind"])
     if msg:
         dis.append(dict(what="%s: reader schema %s vs post-processor: %s" % (tag, r["reader"], msg), signature="reader:" + r["reader"], **replay))
         return None
+    msg = check_end_to_end(r["mem"], rd, r["writer"], r["reader"], r["unit"])
+    if msg:
+        fail_once(ctx, "%s: a field does not arrive with the same meaning: %s" % (tag, msg), "meaning:" + r["writer"],
+                  solution_head=solution_head(r["path"]), **replay)
+        return None
     if r["fmt"].startswith("ans"):
-        msg = check_ages(sol, rd, r.get("sd"), r["unit"], r["harmonic"])
+        msg = check_ages(ctx, tag, replay, sol, rd, r.get("sd"), r["unit"], r["harmonic"])
         if msg:
             dis.append(dict(what="%s: %s" % (tag, msg), signature="ages", **replay))
         stats["ages"] += len(sol["ages"])
+        if sol["ages"] and r.get("sd") and not msg:
+            e1, e2 = coq_age_exprs(r, sol)
+            coqq["age_exprs"] += [e1, e2]
+            coqq["age_cases"].append((tag, sol, rd, replay))
     # the previous-solution reader of hsolver: Tprev is the multiset of the previous file's temperatures
     if r.get("tprev") is not None and r.get("prevnodes") is not None:
         a = sorted(r["tprev"]); b = sorted(float(t[2]) for t in r["prevnodes"])
@@ -797,67 +972,56 @@ def solution_head(path, n=12):
     return L[k:k + n]
 
 
-def previous_solution_cases(ctx, rng, stats, dis):
-    """fsolver reading its own static result as previous solution (PrevType 0: mesh re-use; PrevType 1: incremental,
-    harmonic): the element edge markers after the load vs. those of the mesh"""
+def previous_solution_cases(ctx, rng, stats, dis, coqq):
+    """regression (repaired in /repo 7826e68, 5fed0d3, 0723d07): a static result with a source-current block is re-used as
+    previous solution (PrevType 0: mesh re-use; PrevType 1 / 2: incremental / frozen permeability, time-harmonic).
+    FSolver::loadPreviousSolution must hold the mesh, the node and EDGE markers and the current density Jprev of the static
+    run; the file the second run writes goes through all the checks, Aprev and Jprev must arrive in fpproc."""
     p0 = c05_gen.gen_problem(rng, harmonic=False, size_nodes=25, force=dict(units="centimeters", dosmartmesh=0, pbc=False, boxes=["jblock"]))
     c0 = Case("prev0", "fem", p0, force_s=True)
-    try:
-        r0 = run_mag(ctx, c0)
-    except RuntimeError as e:
-        ctx.fail("previous-solution base problem: %s" % e, problem=p0, signature="pipeline")
+    r0 = one_case(ctx, c0, stats, dis, coqq)
+    if r0 is None:
         return
-    e_mesh = [(e["e0"], e["e1"], e["e2"]) for e in r0["mem"]["elements"]]
-    for ptype, freq in ((0, 0.0), (1, 60.0)):
+    el0 = r0["mem"]["elements"]
+    replay0 = dict(problem=p0)
+    if not any(e["Jprev"] != 0 for e in el0):
+        dis.append(dict(what="previous-solution regression: the static run with a source-current block records no current density Jprev",
+                        signature="prev-setup", **replay0))
+    for ptype, freq in ((0, 0.0), (1, 60.0), (2, 60.0)):
         p1 = copy.deepcopy(p0)
         p1.update(prevsoln=r0["path"], prevtype=ptype, frequency=freq)
-        c1 = Case("prev%d_%d" % (ptype, int(freq)), "fem", p1)
+        p1["features"] = list(p0["features"]) + ["previous-solution", "prevtype%d" % ptype]
         stats["previous_solution_runs"] += 1
-        try:
-            r1 = run_mag(ctx, c1)
-        except RuntimeError as e:
-            stats["previous_solution_failures"].append("PrevType %d f=%g: %s" % (ptype, freq, str(e)[:160]))
+        r1 = one_case(ctx, Case("prev%d_%d" % (ptype, int(freq)), "fem", p1), stats, dis, coqq)
+        if r1 is None:
             continue
-        e_after = [(e["e0"], e["e1"], e["e2"]) for e in r1["mem"]["elements"]]
-        same_mesh = [(e["p0"], e["p1"], e["p2"], e["lbl"]) for e in r1["mem"]["elements"]] == [(e["p0"], e["p1"], e["p2"], e["lbl"]) for e in r0["mem"]["elements"]]
-        if not same_mesh:
-            dis.append(dict(what="previous solution: the mesh loaded from the .ans file differs from the one that was written", signature="prev-mesh", problem=p1))
-        if e_after != e_mesh:
-            if all(e == (0, 0, 0) for e in e_after):
-                stats["known"]["previous-solution-loses-edge-markers"] = stats["known"].get("previous-solution-loses-edge-markers", 0) + 1
-            else:
-                ctx.fail("previous solution: the element edge markers after FSolver::loadPreviousSolution differ from the mesh in an unexpected way",
-                         signature="prev-edges", problem=p1)
-        # the file the second run wrote, through the usual checks
-        one = dict(solved=0, by_writer={}, units={}, tokens=0, max_coordinate_ulp=0, known=stats["known"], ages=0, hsolver_prev=0, checked=0, features={})
-        try:
-            sol = read_solution(r1["path"], r1["fmt"])
-            msg = check_writer_side(sol, r1["mem"], r1["writer"], r1["unit"])
-            if msg:
-                dis.append(dict(what="previous-solution run: writer schema %s vs solver memory: %s" % (r1["writer"], msg), signature="writer:" + r1["writer"], problem=p1))
-            rc, rd, log = run_reader(ctx, "m", r1["path"])
-            if rd["ok"] != 1:
-                if r1["incr"] and r1["harmonic"]:
-                    stats["known"]["harmonic-incremental-rejected-by-fpproc"] = stats["known"].get("harmonic-incremental-rejected-by-fpproc", 0) + 1
-                else:
-                    ctx.fail("previous-solution run (PrevType %d): the post-processor does not open the file fsolver wrote: %s" % (ptype, log[-200:]),
-                             signature="rejected", problem=p1)
-            else:
-                msg = check_reader_side(sol, rd, r1["reader"], r1["unit"], "m")
-                if msg:
-                    dis.append(dict(what="previous-solution run: reader schema %s vs post-processor: %s" % (r1["reader"], msg), signature="reader:" + r1["reader"], problem=p1))
-        except FormatError as e:
-            ctx.fail("previous-solution run (PrevType %d): the written file does not have the documented format: %s" % (ptype, e), signature="format", problem=p1)
+        el1 = r1["mem"]["elements"]
+        rp = dict(problem=p1, previous_problem=p0)
+        if [(e["p0"], e["p1"], e["p2"], e["lbl"]) for e in el1] != [(e["p0"], e["p1"], e["p2"], e["lbl"]) for e in el0]:
+            fail_once(ctx, "previous solution: the mesh FSolver::loadPreviousSolution holds differs from the one the static run wrote", "prev-mesh", **rp)
+        if [(e["e0"], e["e1"], e["e2"]) for e in el1] != [(e["e0"], e["e1"], e["e2"]) for e in el0]:
+            fail_once(ctx, "previous solution: the element edge markers after FSolver::loadPreviousSolution differ from those of the static run "
+                      "(first element: %r, static run %r)" % ((el1[0]["e0"], el1[0]["e1"], el1[0]["e2"]), (el0[0]["e0"], el0[0]["e1"], el0[0]["e2"])),
+                      "previous-solution-loses-edge-markers", **rp)
+        if ptype != 0 and [e["Jprev"] for e in el1] != [e["Jprev"] for e in el0]:
+            # (with PrevType 0 the static solver recomputes Jprev)
+            fail_once(ctx, "previous solution: the current density Jprev of the static run does not arrive in the problem that re-uses it "
+                      "(%d non-zero elements in the static run, %d after FSolver::loadPreviousSolution)"
+                      % (sum(1 for e in el0 if e["Jprev"] != 0), sum(1 for e in el1 if e["Jprev"] != 0)), "static-solution-omits-Jprev", **rp)
+        if ptype != 0:
+            stats["incremental_files_checked"] += 1
+            if not r1["incr"]:
+                dis.append(dict(what="previous-solution regression: PrevType %d did not produce an incremental file" % ptype, signature="prev-setup", **rp))
 
 
 def correspond(ctx):
     if not T:
         regen(ctx)
     rng = ctx.rng
-    stats = dict(solved=0, checked=0, tokens=0, by_writer={}, units={}, features={}, max_coordinate_ulp=0, known={}, ages=0, hsolver_prev=0,
-                 previous_solution_runs=0, previous_solution_failures=[])
+    stats = dict(solved=0, checked=0, tokens=0, by_writer={}, units={}, features={}, max_coordinate_ulp=0, ages=0, hsolver_prev=0, incremental_files_checked=0,
+                 previous_solution_runs=0, pipeline_failures=[], pipeline_failed_problems=[])
     dis = []
-    coqq = dict(limit=700 if ctx.quick() else 1500, exprs=[], cases=[],
+    coqq = dict(limit=700 if ctx.quick() else 1500, exprs=[], cases=[], age_exprs=[], age_cases=[],
                 room={w: (2 if ctx.quick() else 6) for w in T["writers"]})
     cases = plan(ctx, rng)
     for case in cases:
@@ -868,7 +1032,7 @@ def correspond(ctx):
         fp = os.path.join(ctx.snap.src, rel)
         if os.path.exists(fp):
             one_case(ctx, Case("age%d" % k, "fem", None, file=fp), stats, dis, coqq)
-    previous_solution_cases(ctx, vlib.Rng(ctx.seed + 11), stats, dis)
+    previous_solution_cases(ctx, vlib.Rng(ctx.seed + 11), stats, dis, coqq)
     # (iv) the Coq model on the smaller cases
     nmodel = 0
     if coqq["exprs"]:
@@ -881,30 +1045,39 @@ def correspond(ctx):
             if msg:
                 dis.append(dict(what="%s: parse_solution (r_%s) vs the post-processor: %s" % (tag, r["reader"], msg), signature="model-parse:" + r["reader"], **replay))
             nmodel += 1
+    if coqq["age_exprs"]:
+        vals = vlib.coq_eval(HEADER, coqq["age_exprs"], shard=2, timeout=1800)
+        for k, (tag, sol, rd, replay) in enumerate(coqq["age_cases"]):
+            msg = compare_model_ages(vals[2 * k], vals[2 * k + 1], sol, rd)
+            if msg:
+                dis.append(dict(what="%s: air-gap block, model vs implementation: %s" % (tag, msg), signature="model-ages", **replay))
+            nmodel += 1
     seen, uniq = set(), []
     for d in dis:
         if d.get("signature", d["what"]) not in seen:
             seen.add(d.get("signature", d["what"]))
             uniq.append(d)
-    for name, n in sorted(stats["known"].items()):
-        ctx.res.notes.append("known defect observed %d time(s) — %s: %s" % (n, name, KNOWN[name]))
+    if len(stats["pipeline_failures"]) * 10 > len(cases):
+        ctx.fail("more than a tenth of the generated problems produced no result file (mesher / solver failed): %s" % stats["pipeline_failures"][0],
+                 signature="pipeline", problem=stats["pipeline_failed_problems"][0], all=stats["pipeline_failures"][:20])
+    for msg in stats["pipeline_failures"][:5]:
+        ctx.res.notes.append("no result file (not checked here): " + msg)
     cov = ctx.res.cov
-    cov["evaluations"] = len(cases) + len(age_files) + stats["previous_solution_runs"]
+    cov["evaluations"] = len(cases) + len(age_files) + 1 + stats["previous_solution_runs"]
     cov["distinct_nontrivial"] = stats["checked"]
     cov["rule"] = ("seeded problems: electrostatics (c03 generator: conductors fixed/floating, all boundary types, exterior region), heat flow "
                    "(c04 generators: linear, T-k tables / radiation, time steps from a previous .anh), planar magnetics (c05 generator: "
                    "series/parallel circuits Case 0/1/2, periodic / antiperiodic boundaries, static and harmonic), axisymmetric magnetics "
                    "(c17 generator, static and harmonic), every length unit in turn; the repository's air-gap problems; a static result "
-                   "re-used as previous solution (PrevType 0 and 1).  Each is meshed, solved by the real solver binary and by the harness, "
+                   "re-used as previous solution (PrevType 0, 1, 2); axisymmetric problems whose only block label is exterior.  Each is meshed, solved by the real solver binary and by the harness, "
                    "and the written [Solution] part is checked (i)-(v); non-trivial = all checks ran to the end")
     cov["input_distribution"] = {k: stats[k] for k in ("by_writer", "units", "features", "ages", "hsolver_prev", "previous_solution_runs",
-                                                       "previous_solution_failures")}
-    cov["tokens_compared"] = stats["tokens"]
-    cov["max_coordinate_ulp"] = stats["max_coordinate_ulp"]
-    cov["model_evaluations"] = nmodel
-    cov["known_defects_observed"] = stats["known"]
+                                                       "incremental_files_checked", "pipeline_failures")}
+    cov["sol_tokens_compared"] = stats["tokens"]
+    cov["sol_max_coordinate_ulp"] = stats["max_coordinate_ulp"]
+    cov["sol_model_evaluations"] = nmodel
     cov["samples"] = [dict(case=c[0], writer=c[1]["writer"], reader=c[1]["reader"], nodes=c[1]["nn"], head=solution_head(c[1]["path"], 4)) for c in coqq["cases"][:3]]
-    cov["schemas"] = dict(writers={n: [(s["name"], [f["name"] for f in s["fields"]]) for s in w["sections"]] for n, w in T["writers"].items()},
+    cov["sol_schemas"] = dict(writers={n: [(s["name"], [f["name"] for f in s["fields"]]) for s in w["sections"]] for n, w in T["writers"].items()},
                           readers={n: [(s["name"], [f["name"] for f in s["fields"]]) for s in r["sections"]] for n, r in T["readers"].items()})
     return uniq
 
@@ -912,14 +1085,20 @@ def correspond(ctx):
 def search(ctx, broken):
     """a proof or the tie broke: look for a problem whose written file does not arrive"""
     before = len(ctx.failing_inputs)
-    stats = dict(solved=0, checked=0, tokens=0, by_writer={}, units={}, features={}, max_coordinate_ulp=0, known={}, ages=0, hsolver_prev=0,
-                 previous_solution_runs=0, previous_solution_failures=[])
+    stats = dict(solved=0, checked=0, tokens=0, by_writer={}, units={}, features={}, max_coordinate_ulp=0, ages=0, hsolver_prev=0, incremental_files_checked=0,
+                 previous_solution_runs=0, pipeline_failures=[], pipeline_failed_problems=[])
     dis = []
-    coqq = dict(limit=0, exprs=[], cases=[], room={})
+    coqq = dict(limit=0, exprs=[], cases=[], room={}, age_exprs=[], age_cases=[])
     for case in plan(ctx, vlib.Rng(ctx.seed + 5)):
         case.name = "s" + case.name
         one_case(ctx, case, stats, dis, coqq)
     found = ctx.failing_inputs[before:]
     del ctx.failing_inputs[before:]
+    seen, uniq = set(), []
+    for d in dis:
+        if d.get("signature", d["what"]) not in seen:
+            seen.add(d.get("signature", d["what"]))
+            uniq.append(d)
+    dis = uniq
     return [dict(f) for f in found] + [dict(d, what="the written solution file does not arrive with the same meaning: " + d["what"]) for d in dis
                                         if d.get("signature", "").startswith(("writer:", "reader:", "ages"))]
